@@ -223,6 +223,9 @@ pub async fn fair_phase(w: &mut World, assert_convergence: bool) {
     let entries: usize = w.members.iter().map(|m| m.ledger.values().map(|v| v.len()).sum::<usize>()).sum();
     let bound = 60 + 4 * entries + if w.cfg.dead_grace < Duration::from_secs(3600) { 2 * w.cfg.dead_grace.as_secs() as usize } else { 0 };
     let with_gc = w.seed % 2 == 1;
+    // two fair schedules: all ordered pairs per round, or (like the real server) 1-3 random peers per node
+    let sparse = (w.seed / 2) % 3 == 0;
+    let bound = if sparse { bound * 4 } else { bound };
     let mut rounds = 0usize;
     loop {
         if w.aborted || w.fatal() {
@@ -247,6 +250,16 @@ pub async fn fair_phase(w: &mut World, assert_convergence: bool) {
             }
         }
         pairs.shuffle(&mut w.rng);
+        if sparse {
+            // like the real server: every node initiates with at most three random peers per round
+            let mut per: BTreeMap<usize, usize> = BTreeMap::new();
+            let k = 1 + (w.seed % 3) as usize;
+            pairs.retain(|(a, _)| {
+                let c = per.entry(*a).or_default();
+                *c += 1;
+                *c <= k
+            });
+        }
         for (a, b) in pairs {
             monitored_handshake(w, a, b);
             if w.aborted {
@@ -271,6 +284,9 @@ pub async fn fair_phase(w: &mut World, assert_convergence: bool) {
         }
     }
     w.stats.add("fair_rounds", rounds as u64);
+    if sparse {
+        w.stats.inc("fair_phases_with_sparse_schedule");
+    }
     w.stats.max("max_fair_rounds", rounds as u64);
     if assert_convergence && !w.fatal() && !w.aborted {
         w.stats.inc("traces_converged");
@@ -471,14 +487,14 @@ struct Plan {
 fn plan_for(prop: &str) -> Plan {
     use Profile::*;
     match prop {
-        "C01" => Plan { profiles: vec![(Replication, 6), (Membership, 3), (Mixed, 1)], quick: 6_000, thorough: 400_000, fair: true, triggers: vec!["c01_handshake_obligations"], rule: "trace = seeded hostile prefix (50-400 steps: writes, SYNs, any-order deliveries, duplicates, drops, partitions, GC, clock advances, crashes/restarts) followed by the fair phase; distinct = hash of (delivery order, set of abstract states); non-trivial = trace containing a reset, a truncated delta, a reordered or late-duplicate delivery, a drop, a crash or a removal" },
-        "C02" | "C03" | "C05" => Plan { profiles: vec![(Replication, 6), (Membership, 2), (Mixed, 2)], quick: 8_000, thorough: 500_000, fair: true, triggers: vec!["delta_messages_processed"], rule: "trace = seeded hostile prefix + fair phase on 2-5 real nodes, monitors after every step on every copy; distinct = hash of (delivery order, set of abstract states); non-trivial = trace containing a reset, truncation, reordering, late duplicate, drop, crash or removal" },
-        "C04" => Plan { profiles: vec![(Replication, 5), (Membership, 3), (Mixed, 2)], quick: 6_000, thorough: 400_000, fair: true, triggers: vec!["delta_messages_processed", "effective_writes"], rule: "E1 part: as C02; distinct = hash of (delivery order, abstract states)" },
-        "C20" => Plan { profiles: vec![(Replication, 7), (Mixed, 3)], quick: 8_000, thorough: 500_000, fair: true, triggers: vec!["messages_with_reset"], rule: "E1 part: every processed SYN-ACK / ACK of seeded hostile traces; distinct = hash of (delivery order, abstract states); non-trivial = trace with at least one reset" },
-        "C12" => Plan { profiles: vec![(Membership, 7), (Mixed, 2), (Watch, 1)], quick: 8_000, thorough: 500_000, fair: true, triggers: vec!["members_removed", "evaluations_with_dead_members"], rule: "trace = membership-focused hostile prefix (short dead-node grace, crashes, restarts, partitions, clock advances at 1/2 and 1 x grace -/+ 1 ms) + fair phase; distinct = hash of (delivery order, abstract states incl. live/dead/scheduled set sizes)" },
-        "C13" => Plan { profiles: vec![(Watch, 6), (Membership, 4)], quick: 8_000, thorough: 500_000, fair: true, triggers: vec!["watch_values_checked"], rule: "trace = membership-focused prefix with and without the READY predicate, predicate flips by writes / TTL / deletes / crashes; every evaluation is checked; distinct = hash of (delivery order, abstract states)" },
+        "C01" => Plan { profiles: vec![(Replication, 6), (Membership, 3), (Mixed, 1)], quick: 12_000, thorough: 400_000, fair: true, triggers: vec!["c01_handshake_obligations"], rule: "trace = seeded hostile prefix (50-400 steps: writes, SYNs, any-order deliveries, duplicates, drops, partitions, GC, clock advances, crashes/restarts) followed by the fair phase; distinct = hash of (delivery order, set of abstract states); non-trivial = trace containing a reset, a truncated delta, a reordered or late-duplicate delivery, a drop, a crash or a removal" },
+        "C02" | "C03" | "C05" => Plan { profiles: vec![(Replication, 6), (Membership, 2), (Mixed, 2)], quick: 16_000, thorough: 500_000, fair: true, triggers: vec!["delta_messages_processed"], rule: "trace = seeded hostile prefix + fair phase on 2-5 real nodes, monitors after every step on every copy; distinct = hash of (delivery order, set of abstract states); non-trivial = trace containing a reset, truncation, reordering, late duplicate, drop, crash or removal" },
+        "C04" => Plan { profiles: vec![(Replication, 5), (Membership, 3), (Mixed, 2)], quick: 12_000, thorough: 400_000, fair: true, triggers: vec!["delta_messages_processed", "effective_writes"], rule: "E1 part: as C02; distinct = hash of (delivery order, abstract states)" },
+        "C20" => Plan { profiles: vec![(Replication, 7), (Mixed, 3)], quick: 16_000, thorough: 500_000, fair: true, triggers: vec!["messages_with_reset"], rule: "E1 part: every processed SYN-ACK / ACK of seeded hostile traces; distinct = hash of (delivery order, abstract states); non-trivial = trace with at least one reset" },
+        "C12" => Plan { profiles: vec![(Membership, 7), (Mixed, 2), (Watch, 1)], quick: 16_000, thorough: 500_000, fair: true, triggers: vec!["members_removed", "evaluations_with_dead_members"], rule: "trace = membership-focused hostile prefix (short dead-node grace, crashes, restarts, partitions, clock advances at 1/2 and 1 x grace -/+ 1 ms) + fair phase; distinct = hash of (delivery order, abstract states incl. live/dead/scheduled set sizes)" },
+        "C13" => Plan { profiles: vec![(Watch, 6), (Membership, 4)], quick: 16_000, thorough: 500_000, fair: true, triggers: vec!["watch_values_checked"], rule: "trace = membership-focused prefix with and without the READY predicate, predicate flips by writes / TTL / deletes / crashes; every evaluation is checked; distinct = hash of (delivery order, abstract states)" },
         "C14" => Plan { profiles: vec![(Replication, 7), (Membership, 2), (Mixed, 1)], quick: 3_000, thorough: 200_000, fair: true, triggers: vec!["c14_node_deltas_checked"], rule: "" },
-        "C16" => Plan { profiles: vec![(TwoClusters, 1)], quick: 8_000, thorough: 500_000, fair: true, triggers: vec!["foreign_syns_processed"], rule: "trace = two clusters (1-3 nodes each, ids like \"\"/\"a\", \"a\"/\"A\", \"a\"/\"ab\") sharing one message fabric and addresses; every SYN may cross; distinct = hash of (delivery order, abstract states); non-trivial = at least one foreign SYN processed" },
+        "C16" => Plan { profiles: vec![(TwoClusters, 1)], quick: 16_000, thorough: 500_000, fair: true, triggers: vec!["foreign_syns_processed"], rule: "trace = two clusters (1-3 nodes each, ids like \"\"/\"a\", \"a\"/\"A\", \"a\"/\"ab\") sharing one message fabric and addresses; every SYN may cross; distinct = hash of (delivery order, abstract states); non-trivial = at least one foreign SYN processed" },
         _ => panic!("not an E1 property: {prop}"),
     }
 }
